@@ -97,7 +97,7 @@ local function prepare_frame_args(frame)
         -- https://github.com/wikimedia/mediawiki-extensions-Scribunto/blob/8d69dc173e33ae936ff4401d41ee5e6a1fd1ba67/includes/Engines/LuaCommon/lualib/mw.lua#L411
         local text
         if type(opt) == 'table' then
-            text = opt.texts
+            text = opt.text
         else
             text = opt
         end
